@@ -215,3 +215,6 @@ func MustParse(b []byte) *refjson.Value {
 	}
 	return v
 }
+
+// B64 is unpadded standard base64.
+func B64(b []byte) string { return base64.RawStdEncoding.EncodeToString(b) }
